@@ -85,13 +85,28 @@ def template_of_path(it, s):
     nxt = 0
     for kind, v in decode_template(tmpl[2]):
         if kind == "lit":
-            out.append(("lit", v))
+            if out and out[-1][0] == "lit":
+                out[-1] = ("lit", out[-1][1] + v)
+            else:
+                out.append(("lit", v))
         else:
             i = v if v is not None else nxt
             if v is None:
                 nxt += 1
             if i >= len(arglist):
                 raise FmtUnknown("placeholder without argument")
+            a = arglist[i][0]
+            n = 0
+            while a[0] in ("rref", "ref") and n < 6:
+                a = a[1] if a[0] == "rref" else it.load_ptr(s, a[1])
+                n += 1
+            if a[0] == "const" and a[1] == "str" and arglist[i][1] == "display":
+                # a string constant handed to `{}` is printed verbatim: it is part of the template text
+                if out and out[-1][0] == "lit":
+                    out[-1] = ("lit", out[-1][1] + a[2])
+                else:
+                    out.append(("lit", a[2]))
+                continue
             out.append(("hole", arglist[i][0], arglist[i][1]))
     return out
 
